@@ -198,6 +198,13 @@ func (sr *StreamReader) ReadBinary() ([]byte, error) {
 		return nil, decodeErrorf("negative length %v specified for binary field", length)
 	}
 
+	return sr.readBytes(length)
+}
+
+// readBytes reads the given number of bytes. Lengths above
+// bytesAllocThreshold are copied incrementally so that the allocation is
+// bounded by the data actually present rather than by the declared length.
+func (sr *StreamReader) readBytes(length int32) ([]byte, error) {
 	if length == 0 {
 		return []byte{}, nil
 	}
@@ -214,7 +221,7 @@ func (sr *StreamReader) ReadBinary() ([]byte, error) {
 	}
 
 	bs := make([]byte, length)
-	_, err = sr.read(bs)
+	_, err := sr.read(bs)
 	return bs, err
 }
 
